@@ -37,6 +37,10 @@ def run(rep, tier, seed):
     deep = semreplay.build_deep_rows(rep, 2 if tier == "quick" else 3)
     tot2 = semreplay.replay(rep, deep, {**opts, "spellings": 1})
     report(rep, tot2, "C01")
+    # Annotated[...] hints with validators (the case table of MC_Vale.tla, also used by C12)
+    vrows = semreplay.build_rows(rep, tier, module="MC_Vale.tla", invariants=semreplay.VALE_INVARIANTS)
+    tot3 = semreplay.replay(rep, vrows, {**opts, "spellings": 1})
+    report(rep, tot3, "C01")
     rep.cov["exhaustive"] = True
 
 
